@@ -141,7 +141,9 @@ pub fn run_case(case: &C14Case) -> Result<CaseInfo, Fail> {
 }
 
 fn wait_for(nu: &mut Nu, what: &str, pred: impl FnMut(&[WFrame]) -> bool) -> Result<Vec<WFrame>, Fail> {
-    wait_for_secs(nu, 20, what, pred)
+    // (answers normally take milliseconds; one thorough run that shared the machine with several
+    // other campaigns saw a 20 s wait expire on a case that passes when replayed)
+    wait_for_secs(nu, 60, what, pred)
 }
 
 fn wait_for_secs(nu: &mut Nu, secs: u64, what: &str, pred: impl FnMut(&[WFrame]) -> bool) -> Result<Vec<WFrame>, Fail> {
